@@ -293,6 +293,10 @@ func (r *Run) checkPanics() {
 			val = val[:120]
 		}
 		prop := r.PanicProperty
+		if prop == "" {
+			r.Probes["panics_left_to_another_property"]++
+			continue
+		}
 		r.Violate(prop, "no-panic", fmt.Sprintf("panic:%s@%s", normalizePanic(val), fn),
 			"task %s (spawned at %s, last yield %s) panicked: %s\n%s", p.Task, p.Spawn, p.At, p.Value, trimStack(p.Stack))
 	}
